@@ -3,6 +3,7 @@ import VlsModel.Lemmas.Locks
 import VlsModel.Gen.LockTable
 import VlsModel.Model.Locks2pl
 import VlsModel.Lemmas.Locks2pl
+import VlsModel.Lemmas.LocksAtomic
 /-
 Property C20 — concurrent requests neither deadlock nor break per-channel atomicity.
 
@@ -635,6 +636,120 @@ example :
     let r1 : List (DEv Nat Nat) := [.acq 9, .upd 9 (· * 3), .rel 9]
     ((Locks2pl.runSched (Locks2pl.mkState (fun _ => 4) [r0, r1]) [1, 1, 1, 0, 0, 0]).map
         (fun s => (s.mem 9 % 2, s.threads.all (fun t => t.todo.isEmpty)))) = some (0, true) := by
+  decide +kernel
+
+/-! ### Per-channel atomicity: a lock-held interval is atomic, for ARBITRARY requests -/
+
+/-- **A lock-held interval is atomic** (unbounded: any lock/data types, any number of threads, ANY requests — no
+two-phase hypothesis —, every schedule).  Take any reachable state `s0` in which thread `i` holds `l` (for a channel
+request: `slot c`, right after `slot_arc.lock()`), and let `evs` be the events it executes before it releases `l`
+(no `rel l` in `evs`: the critical section as delimited by the guard's scope in the source).  Then, whatever the other
+threads do in between (any number of steps of anybody), at every point `pre ++ post = evs` of the interval thread `i`
+still holds `l` and the cell guarded by `l` is the value it had at `s0` transformed by thread `i`'s OWN updates `pre`,
+in program order: no foreign write (and so no foreign read-modify-write) falls between the read phase and the write
+phase of the section.  This is the per-channel atomicity of a request whose accesses to the channel lie in one
+lock-held interval. -/
+theorem Locks_section_atomic {L D : Type} [DecidableEq L] (mem0 : L → D) (reqs : List (List (DEv L D)))
+    (n0 : Nat) (s0 : DState L D) (hreach : Locks2pl.Steps n0 (Locks2pl.mkState mem0 reqs) s0)
+    (i : Nat) (t : DThread L D) (l : L) (evs rest : List (DEv L D))
+    (hi : s0.threads[i]? = some t) (hheld : l ∈ t.held) (htodo : t.todo = evs ++ rest)
+    (hnorel : ∀ x, DEv.rel x ∈ evs → x ≠ l) :
+    ∀ n s, Locks2pl.Steps n s0 s → ∀ t', s.threads[i]? = some t' →
+      ∀ pre post, evs = pre ++ post → t'.todo.length = post.length + rest.length →
+        s.mem l = app (s0.mem l) (updsOn l pre) ∧ l ∈ t'.held := by
+  intro n s hsteps t' ht' pre post hsplit hlen
+  have he0 : Excl s0.threads := excl_steps (excl_init mem0 reqs) hreach
+  have inv0 : SecInv i l (s0.mem l) evs rest s0 :=
+    ⟨t, hi, Or.inl ⟨[], evs, rfl, htodo, hheld, rfl⟩⟩
+  obtain ⟨t'', ht'', hd⟩ := secInv_steps hnorel he0 inv0 hsteps
+  rw [ht'] at ht''
+  cases ht''
+  rcases hd with ⟨pre', post', hevs, htodo', hheld', hmem⟩ | hlt
+  · have hl : post.length = post'.length := by
+      rw [htodo'] at hlen; simp at hlen; omega
+    have hpp : pre = pre' := (List.append_inj' (hsplit.symm.trans hevs) hl).1
+    subst hpp
+    exact ⟨hmem, hheld'⟩
+  · omega
+
+/-- … in particular at the END of the interval (just before the release): the cell holds the value at the start
+transformed by exactly the section's own updates — the section is one atomic read-modify-write -/
+theorem Locks_section_atomic_end {L D : Type} [DecidableEq L] (mem0 : L → D) (reqs : List (List (DEv L D)))
+    (n0 : Nat) (s0 : DState L D) (hreach : Locks2pl.Steps n0 (Locks2pl.mkState mem0 reqs) s0)
+    (i : Nat) (t : DThread L D) (l : L) (evs rest : List (DEv L D))
+    (hi : s0.threads[i]? = some t) (hheld : l ∈ t.held) (htodo : t.todo = evs ++ rest)
+    (hnorel : ∀ x, DEv.rel x ∈ evs → x ≠ l) :
+    ∀ n s, Locks2pl.Steps n s0 s → ∀ t', s.threads[i]? = some t' → t'.todo = rest →
+      s.mem l = app (s0.mem l) (updsOn l evs) := by
+  intro n s hsteps t' ht' hrest
+  exact (Locks_section_atomic mem0 reqs n0 s0 hreach i t l evs rest hi hheld htodo hnorel n s hsteps t' ht'
+    evs [] (by simp) (by rw [hrest]; simp)).1
+
+/-- non-vacuity of `Locks_section_atomic`: thread 0 is inside its section on cell 9 (`+2`, then `×5`), thread 1
+contends for the same cell -/
+example : ∃ (s0 : DState Nat Nat) (t : DThread Nat Nat),
+    Locks2pl.Steps 1 (Locks2pl.mkState (fun _ => 4)
+      [[.acq 9, .upd 9 (· + 2), .upd 9 (· * 5), .rel 9], [.acq 9, .upd 9 (· * 3), .rel 9]]) s0 ∧
+    s0.threads[0]? = some t ∧ 9 ∈ t.held ∧
+    t.todo = [.upd 9 (· + 2), .upd 9 (· * 5)] ++ [.rel 9] ∧
+    (∀ x, DEv.rel x ∈ ([.upd 9 (· + 2), .upd 9 (· * 5)] : List (DEv Nat Nat)) → x ≠ 9) :=
+  ⟨_, _, Locks2pl.Steps.tail (Locks2pl.Steps.refl _) ⟨0, rfl⟩, rfl, by decide, rfl,
+    by intro x hx; simp at hx⟩
+
+/-- the hypothesis "no release of `l` inside the interval" is NECESSARY (the check-then-act shape of findings F11b /
+F11c / F11e): thread 0 reads cell 9 in one section and writes it in a SECOND one; thread 1's `×3` falls in between and
+the cell ends as `4·3+1 = 13`, not as thread 0's own updates `4+1 = 5` -/
+example :
+    let r0 : List (DEv Nat Nat) := [.acq 9, .upd 9 id, .rel 9, .acq 9, .upd 9 (· + 1), .rel 9]
+    let r1 : List (DEv Nat Nat) := [.acq 9, .upd 9 (· * 3), .rel 9]
+    ((Locks2pl.runSched (Locks2pl.mkState (fun _ => 4) [r0, r1]) [0, 0, 0, 1, 1, 1, 0, 0]).map
+        (fun s => s.mem 9)) = some 13 := by
+  decide +kernel
+
+/-- the critical sections a program opens on lock class `c`, in program order, with their write flags -/
+def secsOf (c : Cls) (p : List (Bool × Bool × Cls)) : List Bool :=
+  (p.filter (fun e => e.1 && e.2.2 == c)).map (·.2.1)
+
+/-- the program touches class `c` in some section and LATER, in a separate section, writes it: its read phase and its
+write phase on `c` are not one lock-held interval -/
+def splitRW (c : Cls) (p : List (Bool × Bool × Cls)) : Bool := (secsOf c p).tail.any id
+
+def allCls : List Cls :=
+  [.tracker, .channels, .slot, .monitor, .monitorDecode, .nodeState, .validatorFactory, .store, .approver]
+
+/-- generated-table obligation (hypothesis of `Locks_section_atomic` for the extracted programs): the (program,
+lock class) pairs in which a section on the class is followed by a separate WRITING section on the same class are
+exactly these — the node-ledger check-then-act programs (`check_onchain_tx` and the withdrawal arms through it, the
+approval arms = finding F11e, the pre-v5 ValidateCommitmentTx arms, whose later section re-validates), the block
+programs (one monitor after the other: different instances) and `Root.SignCommitmentTx` (two branches of one `if`
+listed in sequence).  For EVERY other program and class — in particular the channel map in `new_channel`,
+`forget_channel`, `setup_channel`, the tracker in `setup_channel` / `get_heartbeat` / `unchecked_sign_onchain_tx`,
+and the slot in every `with_channel` request and every `sign_*` arm — all writes to the guarded data happen in the
+FIRST section the program opens on it, i.e. lookup/validation (read phase) and insert/remove/update (write phase)
+share one lock-held interval, to which `Locks_section_atomic` applies. -/
+theorem C20_rw_phases_one_interval :
+    progs.flatMap (fun p => (allCls.filter (fun c => splitRW c p.2)).map (fun c => (p.1, c))) =
+      [("kind:check_onchain_tx", .nodeState), ("kind:add_block", .monitor), ("kind:remove_block", .monitor),
+       ("Root.PreapproveInvoice", .nodeState), ("Root.PreapproveKeysend", .nodeState),
+       ("Root.SignWithdrawal", .nodeState), ("Root.SignHtlcTxMingle", .nodeState),
+       ("Root.SignCommitmentTx", .slot), ("Root.AddBlock", .monitor), ("Root.AddBlock", .monitorDecode),
+       ("Root.RemoveBlock", .monitor), ("Root.RemoveBlock", .monitorDecode),
+       ("Root.SignAnchorspend", .nodeState), ("Channel.ValidateCommitmentTx", .nodeState),
+       ("Channel.ValidateCommitmentTx2", .nodeState), ("Handler.fn.sign_withdrawal", .nodeState)] := by
+  decide +kernel
+
+/-- … spelled out for the channel-level classes: NO extracted program writes the channel map or the tracker in a
+section that follows another section on it, and none except `Root.SignCommitmentTx` does so for a channel slot; every
+program that writes a slot opens exactly ONE writing slot section -/
+theorem C20_channel_phases_one_interval :
+    ∀ p ∈ progs, splitRW .channels p.2 = false ∧ splitRW .tracker p.2 = false ∧
+      (p.1 ≠ "Root.SignCommitmentTx" → splitRW .slot p.2 = false ∧ ((secsOf .slot p.2).filter id).length ≤ 1) := by
+  decide +kernel
+
+/-- non-vacuity: at least 10 programs write a channel slot, at least 6 write the channel map, 4 the tracker -/
+example : (progs.filter (fun p => (secsOf .slot p.2).any id)).length ≥ 10 ∧
+    (progs.filter (fun p => (secsOf .channels p.2).any id)).length ≥ 6 ∧
+    (progs.filter (fun p => (secsOf .tracker p.2).any id)).length ≥ 4 := by
   decide +kernel
 
 /-- generated-table obligation tying the code to the hypothesis of `Locks_2pl_serializable`: in every
